@@ -2,8 +2,11 @@
 C46 — Warm starts run only what follows the start point.
 Statements only; proofs by reference to `SchedLemmasC46` (the warm-start invariant as a `Frame`).
 
+Start-task starts (`--start-task`, `_load_pool_from_tasks`) are modelled in `SchedStart.lean` as another
+start-up state of the same model (`initTasks`, `runTasks`): the theorems `start_tasks_*` below.
 Not expressible over `Sched` v1 (stated in the evidence): manual triggering of pre-start instances
-(`pre_start_tasks_to_trigger`) and start-task selection (`--start-task`, `_load_pool_from_tasks`).
+(`pre_start_tasks_to_trigger`); that the start point is the earliest start-task cycle
+(`WorkflowConfig.process_start_cycle_point`, configuration loading — judged on the real scheduler only).
 -/
 import CylcModel.SchedLemmasC46
 namespace CylcModel.C46
@@ -79,5 +82,71 @@ example :
 example : preStartSatB { exGraph with tasks := exGraph.tasks.map fun t =>
     { t with insts := t.insts.map fun pd => (pd.1, { pd.2 with pre := pd.2.pre.map fun pr =>
       { pr with atoms := pr.atoms.map fun e => (e.1, false) } }) } } = false := by decide
+
+/-! ### start tasks -/
+
+/-- **With start tasks, only the start tasks and the instances they lead to run**
+(`start_tasks_closure`): in every state of every start-task run — any instance graph, any start tasks,
+any op list — every job launch and every pooled proxy is a start task, or a graph child (of some output)
+of such an instance, or the next parentless instance of one (`LeadsTo`). -/
+theorem start_tasks_closure (g : Graph) (starts : List (Int × String)) (ops : List Op) :
+    ∀ s ∈ runTasks g starts ops,
+      (∀ l ∈ s.launched, LeadsTo g starts (l.1, l.2.1)) ∧ (∀ x ∈ s.pool, LeadsTo g starts (x.pt, x.name)) := by
+  intro s hs
+  have h := holdsCl_runTasks g starts ops s hs
+  exact ⟨h.2, h.1⟩
+
+/-- every start task that `spawn_task` accepts (a valid instance at or after the start point) is in the
+pool when the run begins -/
+theorem start_tasks_loaded (g : Graph) (starts : List (Int × String)) (k : Int × String) (hk : k ∈ starts)
+    (hsp : (spawnTask g {} k.2 k.1).isSome = true) :
+    ∃ x ∈ (initTasks g starts).pool, x.pt = k.1 ∧ x.name = k.2 :=
+  initTasks_mem g starts k hk hsp
+
+/-- `prestart_not_run` for start-task runs (the start point is the earliest start-task cycle) -/
+theorem start_tasks_prestart_not_run (g : Graph) (starts : List (Int × String)) (ops : List Op) :
+    ∀ s ∈ runTasks g starts ops,
+      (∀ l ∈ s.launched, g.start ≤ l.1) ∧ (∀ x ∈ s.pool, g.start ≤ x.pt) ∧ (∀ h ∈ s.hist, g.start ≤ h.pt) := by
+  intro s hs
+  have h := holds46_runTasks g (fun _ => True) (fun _ _ _ => trivial) (fun _ _ => trivial)
+    (fun _ _ _ _ _ _ _ => trivial) starts ops s hs
+  exact ⟨h.2.2, fun x hx => (h.1 x hx).1, h.2.1⟩
+
+/-- `prestart_satisfied` for start-task runs -/
+theorem start_tasks_prestart_satisfied (g : Graph) (hwf : preStartSatB g = true) (starts : List (Int × String))
+    (ops : List Op) :
+    ∀ s ∈ runTasks g starts ops, ∀ x ∈ s.pool, ∀ pr ∈ x.pre, ∀ e ∈ pr.atoms, e.1.pt < g.start → e.2 = true := by
+  intro s hs x hx
+  have h := holds46_runTasks g (PreStartOk g) (preStartOk_satisfy g) (fun pre _ => forceAll_preStartOk g pre)
+    (fun _ _ _ _ ht hd hp => preStartOk_of_wf hwf ht hd hp) starts ops s hs
+  exact (h.1 x hx).2
+
+/-- `P1 = "a => b => c"`, points 8..10, started with `--start-task=9/b --start-task=10/c` (start point 9) -/
+def stGraph : Graph :=
+  let inst (pre : List Pre) (ch : List (String × List Child)) (np : Option Int) : InstDef :=
+    { pre := pre, sui := [], children := ch, nextParentless := np }
+  let outs : List OutDef := [⟨"submitted", "submitted"⟩, ⟨"started", "started"⟩, ⟨"succeeded", "succeeded"⟩]
+  { icp := 8, fcp := 10, start := 9, runahead := 2, seqs := [[8, 9, 10]], stopPoint := some 10,
+    tasks := [
+      { name := "a", firstParentless := some 9, completion := CE.var "succeeded", outputs := outs,
+        insts := [8, 9, 10].map fun p =>
+          (p, inst [] [("succeeded", [⟨"b", p, false⟩])] (if p < 10 then some (p + 1) else none)) },
+      { name := "b", firstParentless := none, completion := CE.var "succeeded", outputs := outs,
+        insts := [8, 9, 10].map fun p =>
+          (p, inst [⟨[(⟨p, "a", "succeeded"⟩, false)], none⟩] [("succeeded", [⟨"c", p, false⟩])] none) },
+      { name := "c", firstParentless := none, completion := CE.var "succeeded", outputs := outs,
+        insts := [8, 9, 10].map fun p => (p, inst [⟨[(⟨p, "b", "succeeded"⟩, false)], none⟩] [] none) }] }
+
+-- both start tasks are loaded with their prerequisites satisfied, and the first main loop launches them;
+-- nothing of `a` is ever in the pool
+example :
+    ((runTasks stGraph [(9, "b"), (10, "c")] [.loop]).map fun s =>
+      (s.launched, s.pool.map fun x => (x.pt, x.name, x.prereqsSatisfied))) =
+      [([], [(9, "b", true), (10, "c", true)]),
+       ([(9, "b", 1), (10, "c", 1)], [(9, "b", true), (10, "c", true)])] := by decide
+
+-- a start task before the start point is refused (what happens when the start point is computed wrongly)
+example : ((initTasks { stGraph with start := 10 } [(9, "b"), (10, "c")]).pool.map fun x => (x.pt, x.name)) =
+    [(10, "c")] := by decide
 
 end CylcModel.C46
